@@ -379,11 +379,23 @@ def robust_cases(ctx):
             # certificate: no nearby or far point has a smaller objective
             cand = [z + r * np.exp(1j * t) for r in (1e-6, 1e-3, 1e-1, 1.0) for t in np.linspace(0, 2 * np.pi, 12, endpoint=False)] + list(d) + [d.mean()]
             best = min(f(w_) for w_ in cand)
-            if not np.isfinite(z) or f(z) > best + 1e-6 * (np.abs(d).max() + 1e-12) * len(d):
+            # Huber: the location is the fixed point of the documented reweighting map (Lean: `src_huber_fixed_point_optimal`); the
+            # solver stops when one step moves the iterate by less than xtol = 1e-9 (l1), so one more step from the returned
+            # value moves it by less than that again — 1e-7 leaves two decades for rounding (the objective alone is flat at
+            # its minimum and cannot see a location error of 1e-5)
+            resid = 0.0
+            if not is_median and np.isfinite(z):
+                with np.errstate(all="ignore"):
+                    w_ = np.minimum(1.0, agg[1] / np.abs(z - d))
+                w_ = np.where(np.isfinite(w_), w_, 1.0)
+                z1_ = (w_ * d).sum() / w_.sum()
+                resid = abs((z1_ - z).real) + abs((z1_ - z).imag)
+            if not np.isfinite(z) or f(z) > best + 1e-6 * (np.abs(d).max() + 1e-12) * len(d) or resid > 1e-7:
                 deg = degenerate(d) if is_median else ("fixed_point_iteration_needs_more_than_600_steps" if irls_slow(d, agg[1]) else "n/a")
                 if is_median and deg == "none" and np.isfinite(z) and np.abs(z - d).min() <= 1e-8 * (np.abs(d).max() + 1e-300):
                     deg = "returned_value_is_a_sample"  # the Newton iterate got trapped on a delayed sample that is not the median
-                ctx.violate(f"{kind}: value {z!r} is not the minimiser of its objective over the delayed samples {d.tolist()} (f={f(z)}, better {best})", cj,
+                ctx.violate(f"{kind}: value {z!r} is not the minimiser of its objective over the delayed samples {d.tolist()} (f={f(z)}, better {best}"
+                            + (f"; one more reweighting step moves it by {resid:.2e}, the documented stopping tolerance is 1e-9" if resid > 1e-7 else "") + ")", cj,
                             {"kind": "robust_value", "aggregation": "median" if is_median else "huber", "degenerate": deg})
                 break
 
